@@ -108,6 +108,71 @@ theorem iter_remove_current (p : Nat → Bool) (as : List Nat) (s : Pyx.OSetPtr.
     (Pyx.OSetPtr.iterRem p (as.length + 1) s a).1 = as.map s.key :=
   Pyx.OSetPtr.iterRem_spec p as s a hn hp hnd h0 hk hm hb
 
+/-- pointer level ⇒ list level.  `Repr s L`: walking `next` from the sentinel yields cells whose keys are `L`,
+    `prev` is the mirror, `map` maps exactly the keys of `L` to their cells, addresses are distinct, not the
+    sentinel and below the allocator.  It holds for the empty set, is preserved by `add` (the list becomes
+    `L ++ [k]`, or stays `L` when `k` is present) and by `discard` (the list becomes `L.erase k`), and under it
+    forward iteration yields `L` and reverse iteration `L.reverse`. -/
+theorem ptr_refines :
+    Pyx.OSetPtr.Repr Pyx.OSetPtr.empty [] ∧
+    (∀ s L k, Pyx.OSetPtr.Repr s L → Pyx.OSetPtr.Repr (Pyx.OSetPtr.add k s) (Pyx.OSet.add k L)) ∧
+    (∀ s L k, Pyx.OSetPtr.Repr s L → Pyx.OSetPtr.Repr (Pyx.OSetPtr.discard k s) (Pyx.OSet.discard k L)) ∧
+    (∀ s L, Pyx.OSetPtr.Repr s L → Pyx.OSetPtr.toList s = L ∧ Pyx.OSetPtr.toListRev s = L.reverse) := by
+  refine ⟨⟨[], Pyx.OSetPtr.reprA_empty⟩, ?_, ?_, ?_⟩
+  · rintro s L k ⟨as, h⟩
+    unfold Pyx.OSet.add
+    by_cases hk : k ∈ L
+    · rw [(Pyx.OSetPtr.reprA_add h k).1 hk, if_pos hk]; exact ⟨as, h⟩
+    · rw [if_neg hk]; exact ⟨_, (Pyx.OSetPtr.reprA_add h k).2 hk⟩
+  · rintro s L k ⟨as, h⟩
+    unfold Pyx.OSet.discard
+    by_cases hk : k ∈ L
+    · obtain ⟨as1, a, as2, _, _, h'⟩ := (Pyx.OSetPtr.reprA_discard h k).2 hk
+      exact ⟨_, h'⟩
+    · rw [(Pyx.OSetPtr.reprA_discard h k).1 hk, List.erase_of_not_mem hk]; exact ⟨as, h⟩
+  · rintro s L ⟨as, h⟩
+    exact Pyx.OSetPtr.reprA_toList h
+
+/-- the list-level meaning of the pointer ops is the abstract model's `add` / `discard` -/
+theorem ptr_ops_are_oset_ops (k : Nat) (l : T) :
+    Pyx.OSetPtr.absP (.add k) l = Pyx.OSet.add k l ∧ Pyx.OSetPtr.absP (.discard k) l = Pyx.OSet.discard k l :=
+  ⟨rfl, rfl⟩
+
+/-- every state reachable from the empty set by ANY sequence of add / discard is represented, and denotes the
+    list the abstract operations compute: forward and reverse iteration agree with the list model -/
+theorem ptr_reachable (ops : List Pyx.OSetPtr.POp) :
+    Pyx.OSetPtr.Repr (Pyx.OSetPtr.runP ops) (Pyx.OSetPtr.absRunP ops) ∧
+    Pyx.OSetPtr.toList (Pyx.OSetPtr.runP ops) = Pyx.OSetPtr.absRunP ops ∧
+    Pyx.OSetPtr.toListRev (Pyx.OSetPtr.runP ops) = (Pyx.OSetPtr.absRunP ops).reverse := by
+  have h : Pyx.OSetPtr.Repr (Pyx.OSetPtr.runP ops) (Pyx.OSetPtr.absRunP ops) :=
+    Pyx.OSetPtr.repr_runP_from ops Pyx.OSetPtr.empty [] ⟨[], Pyx.OSetPtr.reprA_empty⟩
+  obtain ⟨as, ha⟩ := h
+  exact ⟨⟨as, ha⟩, Pyx.OSetPtr.reprA_toList ha⟩
+
+/-- `Repr` implies the hypotheses of `iter_remove_current` (for the ring starting after the sentinel) -/
+theorem repr_gives_iter_hypotheses (s : Pyx.OSetPtr.Store) (L : List Nat) (h : Pyx.OSetPtr.Repr s L) :
+    ∃ as, Pyx.OSetPtr.NextChain s (s.next 0) as ∧ Pyx.OSetPtr.PrevChain s as ∧ as.Nodup ∧ 0 ∉ as ∧
+      (as.map s.key).Nodup ∧ Pyx.OSetPtr.MapOk s as ∧ (∀ b bs, as = b :: bs → s.prev b ∉ bs) ∧
+      as.map s.key = L ∧ as.length < s.fresh := by
+  obtain ⟨as, ha⟩ := h
+  refine ⟨as, Pyx.OSetPtr.nextChain_of_linked s as 0 ha.linked, Pyx.OSetPtr.prevChain_of_linked s as 0 ha.linked,
+    ha.nodup, ha.nz, by rw [ha.keys]; exact ha.knodup, ha.mapIn, ?_, ha.keys, ha.len⟩
+  intro b bs hbs
+  subst hbs
+  have hl := ha.linked
+  simp only [List.cons_append, Pyx.OSetPtr.Linked] at hl
+  rw [hl.2.1]
+  exact fun hm => ha.nz (by simp [hm])
+
+/-- hence in EVERY state reachable by add / discard sequences, iterating (as `__iter__` does, from the cell
+    after the sentinel) while the consumer discards the element being visited — any predicate — visits exactly
+    the elements of the set, once each, in order -/
+theorem iter_remove_current_reachable (p : Nat → Bool) (ops : List Pyx.OSetPtr.POp) :
+    (Pyx.OSetPtr.iterRem p (Pyx.OSetPtr.runP ops).fresh (Pyx.OSetPtr.runP ops)
+      ((Pyx.OSetPtr.runP ops).next 0)).1 = Pyx.OSetPtr.absRunP ops := by
+  obtain ⟨⟨as, ha⟩, _⟩ := ptr_reachable ops
+  exact Pyx.OSetPtr.iterRem_of_reprA p ha
+
 /-! non-vacuity: concrete states meeting the hypotheses -/
 example : (run [.add 3, .add 1, .ior [5, 1, 7], .popFirst, .ixor [7, 2]]) = [1, 5, 2] := by decide
 example : ([1, 5, 7] : T).Nodup ∧ eqIter [1, 5, 7] [1, 5, 7] = true ∧ eqIter [1, 5, 7] [5, 1, 7] = false := by decide
@@ -116,5 +181,10 @@ def ring2 : Pyx.OSetPtr.Store := Pyx.OSetPtr.add 8 (Pyx.OSetPtr.add 9 Pyx.OSetPt
 example : Pyx.OSetPtr.NextChain ring2 (ring2.next 0) [1, 2] ∧ Pyx.OSetPtr.PrevChain ring2 [1, 2] ∧
     ([1, 2].map ring2.key = [9, 8]) ∧ ring2.prev 1 = 0 ∧ ring2.map 9 = some 1 ∧ ring2.map 8 = some 2 := by
   simp [Pyx.OSetPtr.NextChain, Pyx.OSetPtr.PrevChain, ring2, Pyx.OSetPtr.add, Pyx.OSetPtr.empty, Pyx.OSetPtr.upd]
+
+/-- a reachable pointer state and the list it denotes -/
+example : Pyx.OSetPtr.absRunP [.add 9, .add 8, .add 9, .discard 9, .add 7, .discard 5] = [8, 7] := by decide
+example : Pyx.OSetPtr.toList (Pyx.OSetPtr.runP [.add 9, .add 8, .add 9, .discard 9, .add 7, .discard 5]) = [8, 7] :=
+  (ptr_reachable _).2.1
 
 end PyxProps.C17
